@@ -38,7 +38,7 @@ def _code_find(s, pat, start=0, end=None):
             yield m
 
 
-def r1_debug_asserts(body, may_fail=()):
+def r1_debug_asserts(body, may_fail=(), panic_call='verif_panic()'):
     """R1:  if true { if !(C) { ::core::panicking::panic(..) }; }; ;   ->  if !(C) { verif_debug_panic() }
     R1': if !(C) { ::core::panicking::panic(..) }                     ->  if !(C) { verif_panic() }
     any other ::core::panicking::* call                               ->  verif_panic()
@@ -126,8 +126,8 @@ def r1_debug_asserts(body, may_fail=()):
     for m in _code_find(s, PANIC_CALL):
         po = m.end() - 1
         pc = match_delim(s, po)
-        res.append((m.start(), pc + 1, 'verif_panic()'))
-        log.append("R1': panic call -> verif_panic()")
+        res.append((m.start(), pc + 1, panic_call))
+        log.append("R1': panic call -> %s" % panic_call)
     s = _apply(s, res)
     return s, log
 
@@ -538,7 +538,7 @@ def apply_all(body, opts=None):
     log += l
     s, l = r13_strip_macro_rules(s)
     log += l
-    s, l = r1_debug_asserts(s, opts.get('may_fail', ()))
+    s, l = r1_debug_asserts(s, opts.get('may_fail', ()), opts.get('panic_call', 'verif_panic()'))
     log += l
     for f in (r4_break_value, r5_copied_iter, r8_all_block, r7_any_all):
         s, l = f(s)
